@@ -86,6 +86,7 @@ int main(void)
     CHECK(find_from(a, la, (u32)g2, "desc") > 0 && find_from(a, la, (u32)i1, "some words") > 0 && find_from(a, la, (u32)i2, "(default: x, y)") > 0, "C15: group description, description words and the default list are shown, nothing lost or reordered");
 #endif
     WITNESS_AT(prior >= 5, "prior content of five or more bytes");
+    WITNESS_AT(prior >= 2, "prior content of two or more bytes");
     WITNESS_AT(prior == 0, "no prior content");
     OBS("la=%u lb=%u lc=%u maxcol=%u\n", la, lb, lc, maxcol); OBS_STR("a", a, la < 120 ? la : 120);
 #elif defined(MODE_PAD)
